@@ -69,7 +69,7 @@ def for_parse(tree):
 def generate(seed, tier):
     r = rng(seed, FAMILY)
     quick = tier == "quick"
-    for i in range(360 if quick else 8000):
+    for i in range(2500 if quick else 25000):
         mode = r.random()
         if mode < 0.3:
             t = leaf(r)
